@@ -76,12 +76,13 @@ def build_candidate(parent_tree, parent_state, cand_state, dp, grid_size):
 
 
 def proposal_case(item):
-    kname, op, perm, alpha, m, psi = item
+    kname, op, perm, alpha, m, psi = item[:6]
+    kind = item[6] if len(item) > 6 else "generic"  # "needle": deep data, placements thousands of log units apart
     from phyclone.tree import FSCRPDistribution, TreeJointDistribution, Tree
     from phyclone.smc.swarm import Particle, TreeHolder
     from phyclone.smc.utils import RootPermutationDistribution
 
-    data = oracle.make_data(m + 1, grid=4, outlier_prob=(0.2 if op > 0 else 0.0))
+    data = oracle.make_data(m + 1, grid=4, outlier_prob=(0.2 if op > 0 else 0.0), kind=kind, dims=(2 if kind == "needle" else 1))
     td = TreeJointDistribution(FSCRPDistribution(alpha))
     pd = RootPermutationDistribution() if perm else None
     parents = [None] if m == 0 else oracle.all_states(m, outliers=op > 0)
@@ -104,12 +105,14 @@ def proposal_case(item):
         cands = placements(ps, dp.idx, op > 0)
         res["ncand"] = len(cands)
         q = {}
+        logq = {}
         for c in cands:
             ct = build_candidate(oracle.build(ps, data) if ps is not None else None, ps, c, dp, dp.grid_size)
             assert oracle.abstract(ct) == c, (oracle.fmt_state(oracle.abstract(ct)), oracle.fmt_state(c))
             try:
                 lp1 = float(dist.log_p(TreeHolder(ct, td, pd)))
                 q[c] = math.exp(lp1)
+                logq[c] = lp1
                 if kname == "bootstrap":  # the only kernel whose sample() hands a plain Tree to log_p()
                     lp2 = float(dist.log_p(ct))
                     if abs(lp1 - lp2) > 1e-9:
@@ -121,8 +124,10 @@ def proposal_case(item):
         if not abs(tot - 1.0) < TOL:
             res["problems"].append(("sum of reported probabilities", tot, sorted(([oracle.fmt_state(c), p] for c, p in q.items()), key=repr)[:8]))
         for c, p in q.items():
-            if not p > 0:
-                res["problems"].append(("placement has no positive probability", oracle.fmt_state(c), p))
+            # positive probability is judged in log space: a placement may be thousands of log units below the best one
+            lp = logq.get(c, float("nan"))
+            if not (lp == lp and lp > -math.inf and lp <= 1e-9):
+                res["problems"].append(("placement has no positive probability", oracle.fmt_state(c), lp))
         # faithful sampling
         emp = {}
 
@@ -294,6 +299,14 @@ def items(tier):
                             continue
                         for psi in range(np_):
                             prop.append((k, op, perm, alpha, m, psi))
+                # deep data (two samples, placements thousands of log units apart): every placement keeps a positive, finite log-probability
+                if perm:
+                    for m in (1, 2, 3) if tier == "quick" else (1, 2, 3, 4):
+                        np_ = len(oracle.all_states(m, outliers=op > 0))
+                        for psi in range(np_):
+                            if m == 4 and (op > 0 or psi % 3):
+                                continue
+                            prop.append((k, op, perm, 1.0, m, psi, "needle"))
                 ns = (1, 2, 3)
                 for n in ns:
                     for order in itertools.permutations(range(n)):
@@ -311,17 +324,18 @@ def main(tier, seed):
                 "m <= 3 (4 thorough) data points x next data point: every oracle placement scored, ALL executions of sample(); weight cases: "
                 "every data order x ALL executions (= all placement paths) of SMCSampler (N=1) and ConditionalSMCSampler (N=2, every compatible "
                 "retained tree), no resampling; non-trivial = proposal with >= 2 placements / order with >= 2 paths")
-    chk.assumptions = ["candidate trees are built as parent.copy() + one edit, as the kernels do", "data: generic grid-4 values, outlier prior 0.2 when on"]
+    chk.assumptions = ["candidate trees are built as parent.copy() + one edit, as the kernels do", "data: generic grid-4 values, outlier prior 0.2 when on; deep two-sample data (values down to -5000) for a second pass over every parent tree"]
     prop, wts = items(tier)
     for r in pool_imap(proposal_case, prop, chunksize=4):
-        k, op, perm, alpha, m, psi = r["item"]
-        chk.states.add(("parent", m, op > 0, psi))
+        k, op, perm, alpha, m, psi = r["item"][:6]
+        deep = len(r["item"]) > 6
+        chk.states.add(("parent", m, op > 0, psi, deep))
         chk.transitions += r["nexec"]
         chk.traces_validated += r["nexec"]
         chk.evaluations += r["ncand"]
         if r["ncand"] >= 2:
             chk.nontrivial.add(("prop",) + tuple(r["item"]))
-        key = {"sub": "proposal", "kernel": k, "outlier_proposal": op > 0, "perm": perm, "m": m}
+        key = {"sub": "proposal", "kernel": k, "outlier_proposal": op > 0, "perm": perm, "m": m, "deep_data": deep}
         for pr in r["problems"][:2]:
             chk.violation(dict(key, what=pr[0]), {"case": r["item"], "problem": pr}, {"kind": "proposal", "item": r["item"]})
         if len(chk.samples) < 2 and m == 2 and r["ncand"] > 3:
